@@ -1,7 +1,10 @@
 // K-C18: correspondence harness for serialization round trips.
 // One op per line, one observation per line (same protocol as lean/Driver/C18.lean).
 //
-//   ds  <kind> <fmt> <dim> <seed> <batch sizes...>     kind: dense|sparse|dense-cls|sparse-cls|dense-reg
+//   ds  <kind> <fmt> <dim> <seed> <batch sizes...>     kind: dense|sparse|sparse-loose|dense-cls|sparse-cls|dense-reg|
+//                                                            dense-w|sparse-cls-w|dense-view
+//   vec <fmt> <old length> <values...>                 remora::vector loaded into a used vector
+//   wrap <fmt> <n> <seed>                              std::vector<std::pair<size_t,std::string>> + vector of vectors
 //   obj <label> <fmt> <Class1,Class2,...>              fmt: text|binary
 //
 // `ds`: build the dataset from the formula shared with the driver, write it to a
@@ -30,13 +33,28 @@
 #include <boost/archive/polymorphic_text_oarchive.hpp>
 #include <boost/archive/polymorphic_binary_iarchive.hpp>
 #include <boost/archive/polymorphic_binary_oarchive.hpp>
+#include <shark/Data/WeightedDataset.h>
+#include <shark/Data/DataView.h>
+#include <shark/Models/Kernels/DiscreteKernel.h>
+#include <shark/Models/Kernels/SubrangeKernel.h>
+#include <boost/serialization/utility.hpp>
+#include <boost/serialization/string.hpp>
 #include "common.hpp"
 #include "c18.hpp"
+#include "c18_tok.hpp"
+#include <boost/archive/impl/basic_text_oarchive.ipp>
+#include <boost/archive/impl/text_oarchive_impl.ipp>
+#include <boost/archive/impl/archive_serializer_map.ipp>
+namespace boost { namespace archive {
+template class detail::archive_serializer_map<c18::tok_oarchive>;
+template class basic_text_oarchive<c18::tok_oarchive>;
+template class text_oarchive_impl<c18::tok_oarchive>;
+}}
 
 using namespace shark;
 
 // ------------------------------------------------------------------ datasets
-static long cell(std::size_t seed, std::size_t e, std::size_t j){ return long((seed * 7 + e * 3 + j * 5) % 11) - 5; }
+using c18::cell;
 static bool stored(std::size_t seed, std::size_t e, std::size_t j){ return (seed + e + j) % 3 == 0; }
 static unsigned label(std::size_t seed, std::size_t e){ return unsigned((e * 2 + seed) % 3); }
 
@@ -50,7 +68,7 @@ static void fillDense(Data<RealVector>& d, std::vector<std::size_t> const& bs, s
 	}
 	d.shape() = {dim};
 }
-static void fillSparse(Data<CompressedRealVector>& d, std::vector<std::size_t> const& bs, std::size_t dim, std::size_t seed){
+static void fillSparse(Data<CompressedRealVector>& d, std::vector<std::size_t> const& bs, std::size_t dim, std::size_t seed, bool packed = true){
 	d = Data<CompressedRealVector>();
 	std::size_t e = 0;
 	for(std::size_t b = 0; b != bs.size(); ++b){
@@ -58,15 +76,25 @@ static void fillSparse(Data<CompressedRealVector>& d, std::vector<std::size_t> c
 		//  compressed_matrix_impl::operator= has no return statement, so the batch is built by the
 		//  sizing constructor and appended by copy construction)
 		CompressedRealMatrix m(bs[b], dim);
+		if(packed){
+			// packed layout (capacity = stored elements, rows back to back): the layout the Lean model
+			// (SparseStorage.packed) predicts token by token
+			std::size_t total = 0;
+			for(std::size_t i = 0; i != bs[b]; ++i) for(std::size_t j = 0; j != dim; ++j) if(stored(seed, e + i, j)) ++total;
+			m.reserve(total);
+		}
 		for(std::size_t i = 0; i != bs[b]; ++i, ++e){
 			std::size_t nnz = 0;
 			for(std::size_t j = 0; j != dim; ++j) if(stored(seed, e, j)) ++nnz;
-			m.major_reserve(i, nnz);
+			m.major_reserve(i, nnz, packed);
 			auto pos = m.major_end(i);
 			for(std::size_t j = 0; j != dim; ++j)
 				if(stored(seed, e, j)) pos = m.set_element(pos, j, double(cell(seed, e, j) == 0 ? 9 : cell(seed, e, j)));
 		}
 		d.push_back(m);
+		// compressed_matrix_impl::m_minor_size is archived but set by resize() only (no constructor initialises
+		// it, nothing reads it): give it a defined value so that the token streams are comparable (N-C18-1)
+		if(packed) d.batch(b).resize(bs[b], dim);
 	}
 	d.shape() = {dim};
 }
@@ -80,11 +108,15 @@ static void fillLabels(Data<unsigned int>& d, std::vector<std::size_t> const& bs
 	d.shape() = {3};
 }
 
-static std::string shapeStr(Shape const& s){
-	std::ostringstream os; os << "(";
-	for(std::size_t i = 0; i != s.size(); ++i){ if(i) os << ","; os << s[i]; }
-	os << ")"; return os.str();
+static void fillWeights(Data<double>& d, std::vector<std::size_t> const& bs, std::size_t seed){
+	d = Data<double>(bs.size());
+	std::size_t e = 0;
+	for(std::size_t b = 0; b != bs.size(); ++b){
+		d.batch(b).resize(bs[b]);
+		for(std::size_t i = 0; i != bs[b]; ++i, ++e) d.batch(b)(i) = double((e + seed) % 4 + 1);
+	}
 }
+using c18::shapeStr;
 static std::string show(Data<RealVector>& d){
 	std::ostringstream os; os << "shape=" << shapeStr(d.shape()) << " batches=[";
 	for(std::size_t b = 0; b != d.numberOfBatches(); ++b){
@@ -92,6 +124,16 @@ static std::string show(Data<RealVector>& d){
 		if(b) os << ",";
 		os << m.size1() << "x" << m.size2() << ":";
 		for(std::size_t i = 0; i != m.size1(); ++i){ os << "["; for(std::size_t j = 0; j != m.size2(); ++j){ if(j) os << " "; os << vh::intval(m(i,j)); } os << "]"; }
+	}
+	os << "]#" << d.shape().numElements(); return os.str();
+}
+static std::string show(Data<double>& d){
+	std::ostringstream os; os << "shape=" << shapeStr(d.shape()) << "#" << d.shape().numElements() << " batches=[";
+	for(std::size_t b = 0; b != d.numberOfBatches(); ++b){
+		if(b) os << ",";
+		os << d.batch(b).size() << ":[";
+		for(std::size_t i = 0; i != d.batch(b).size(); ++i){ if(i) os << " "; os << vh::intval(d.batch(b)(i)); }
+		os << "]";
 	}
 	os << "]"; return os.str();
 }
@@ -107,7 +149,7 @@ static std::string show(Data<CompressedRealVector>& d){
 			os << "}";
 		}
 	}
-	os << "]"; return os.str();
+	os << "]#" << d.shape().numElements(); return os.str();
 }
 static std::string show(Data<unsigned int>& d){
 	std::ostringstream os; os << "shape=" << shapeStr(d.shape()) << " batches=[";
@@ -117,21 +159,43 @@ static std::string show(Data<unsigned int>& d){
 		for(std::size_t i = 0; i != d.batch(b).size(); ++i){ if(i) os << " "; os << d.batch(b)(i); }
 		os << "]";
 	}
-	os << "]"; return os.str();
+	os << "]#" << d.shape().numElements(); return os.str();
 }
 
-template<class D> std::string dsRound(D& orig, bool binary){
-	D fresh;
-	c18::roundTrip(orig, fresh, binary);
-	std::string a = show(orig), b = show(fresh);
-	return b + (a == b ? "" : " !oracle dataset-differs");
+template<class T> static std::string tokensOf(T const& o){
+	std::ostringstream ss;
+	{ c18::polymorphic_tok_oarchive oa(ss); OutArchive& ar = oa; ar << o; }
+	std::string t = ss.str();
+	for(char& c: t) if(c == '\n' || c == '\r') c = ' ';
+	while(!t.empty() && t.back() == ' ') t.pop_back();
+	for(char& c: t) if(c == ' ') c = ',';
+	return " tokens=" + t;
 }
-template<class I, class L> std::string dsRoundLabeled(Data<I>& in, Data<L>& lab, bool binary){
-	LabeledData<I, L> orig(in, lab), fresh;
-	c18::roundTrip(orig, fresh, binary);
-	std::string a = show(orig.inputs()) + " labels " + show(orig.labels());
-	std::string b = show(fresh.inputs()) + " labels " + show(fresh.labels());
-	return b + (a == b ? "" : " !oracle dataset-differs");
+// dataset history: fresh target; a USED target (other contents, other batch structure, sharing its batches with a
+// sibling copy) read twice; second generation; the sibling of the used target must keep its contents
+template<class D, class Show, class MakeOther>
+std::string dsHistory(D& orig, bool binary, Show showAll, MakeOther makeOther, bool tokens){
+	std::string A = showAll(orig);
+	std::string bytesA = c18::bytes(orig, binary);
+	D fresh;
+	c18::load(bytesA, fresh, binary);
+	std::string B = showAll(fresh);
+	std::string out = B + (tokens ? tokensOf(orig) : "");
+	if(A != B) return out + " !oracle dataset-differs";
+	D used; makeOther(used);
+	D sibling = used;                         // shares the batches of `used`
+	std::string S = showAll(sibling);
+	c18::load(bytesA, used, binary);
+	if(showAll(used) != A) return out + " !oracle stale-dataset-not-overwritten";
+	if(showAll(sibling) != S) return out + " !oracle sibling-of-target-changed";
+	c18::load(bytesA, used, binary);
+	if(showAll(used) != A) return out + " !oracle read-twice-differs";
+	std::string bytesB = c18::bytes(used, binary);
+	if(bytesB != bytesA) return out + " !oracle rewritten-archive-differs";
+	c18::load(bytesB, sibling, binary);
+	if(showAll(sibling) != A) return out + " !oracle second-generation-differs";
+	if(showAll(orig) != A) return out + " !oracle original-changed-by-write";
+	return out;
 }
 
 static std::string runDs(std::vector<std::string> const& t){
@@ -139,190 +203,245 @@ static std::string runDs(std::vector<std::string> const& t){
 	std::size_t dim = std::stoull(t[3]), seed = std::stoull(t[4]);
 	std::vector<std::size_t> bs;
 	for(std::size_t i = 5; i < t.size(); ++i) bs.push_back(std::stoull(t[i]));
-	Data<RealVector> dense; Data<CompressedRealVector> sparse; Data<unsigned int> labels; Data<RealVector> reg;
-	if(kind == "dense"){ fillDense(dense, bs, dim, seed); return "ds " + kind + " " + dsRound(dense, binary); }
-	if(kind == "sparse"){ fillSparse(sparse, bs, dim, seed); return "ds " + kind + " " + dsRound(sparse, binary); }
-	if(kind == "dense-cls"){ fillDense(dense, bs, dim, seed); fillLabels(labels, bs, seed); return "ds " + kind + " " + dsRoundLabeled(dense, labels, binary); }
-	if(kind == "sparse-cls"){ fillSparse(sparse, bs, dim, seed); fillLabels(labels, bs, seed); return "ds " + kind + " " + dsRoundLabeled(sparse, labels, binary); }
-	if(kind == "dense-reg"){ fillDense(dense, bs, dim, seed); fillDense(reg, bs, 2, seed + 1); return "ds " + kind + " " + dsRoundLabeled(dense, reg, binary); }
+	std::vector<std::size_t> other{2, 0, 3};
+	Data<RealVector> dense; Data<CompressedRealVector> sparse; Data<unsigned int> labels; Data<RealVector> reg; Data<double> weights;
+	bool loose = kind == "sparse-loose";
+	fillDense(dense, bs, dim, seed); fillSparse(sparse, bs, dim, seed, !loose); fillLabels(labels, bs, seed);
+	fillDense(reg, bs, 2, seed + 1); fillWeights(weights, bs, seed);
+	std::string head = "ds " + kind + " ";
+	if(kind == "dense" || kind == "dense-view"){
+		typedef Data<RealVector> D;
+		if(kind == "dense-view"){ DataView<D> view(dense); D conv = toDataset(view, 2); dense = conv; }
+		return head + dsHistory(dense, binary, [](D& d){ return show(d); }, [&](D& d){ fillDense(d, other, dim + 1, seed + 7); }, true);
+	}
+	if(kind == "sparse" || loose){
+		typedef Data<CompressedRealVector> D;
+		return head + dsHistory(sparse, binary, [](D& d){ return show(d); }, [&](D& d){ fillSparse(d, other, dim + 2, seed + 7, false); }, !loose);
+	}
+	if(kind == "dense-cls"){
+		typedef LabeledData<RealVector, unsigned int> D; D orig(dense, labels);
+		return head + dsHistory(orig, binary, [](D& d){ return show(d.inputs()) + " labels " + show(d.labels()); },
+			[&](D& d){ Data<RealVector> x; Data<unsigned int> y; fillDense(x, other, dim + 1, seed + 7); fillLabels(y, other, seed + 3); d = D(x, y); }, true);
+	}
+	if(kind == "sparse-cls"){
+		typedef LabeledData<CompressedRealVector, unsigned int> D; D orig(sparse, labels);
+		return head + dsHistory(orig, binary, [](D& d){ return show(d.inputs()) + " labels " + show(d.labels()); },
+			[&](D& d){ Data<CompressedRealVector> x; Data<unsigned int> y; fillSparse(x, other, dim + 1, seed + 7, false); fillLabels(y, other, seed + 3); d = D(x, y); }, true);
+	}
+	if(kind == "dense-reg"){
+		typedef LabeledData<RealVector, RealVector> D; D orig(dense, reg);
+		return head + dsHistory(orig, binary, [](D& d){ return show(d.inputs()) + " labels " + show(d.labels()); },
+			[&](D& d){ Data<RealVector> x, y; fillDense(x, other, dim + 1, seed + 7); fillDense(y, other, 1, seed + 3); d = D(x, y); }, true);
+	}
+	if(kind == "dense-w"){
+		typedef WeightedUnlabeledData<RealVector> D; D orig(dense, weights);
+		return head + dsHistory(orig, binary, [](D& d){ return show(d.data()) + " weights " + show(d.weights()); },
+			[&](D& d){ Data<RealVector> x; Data<double> w; fillDense(x, other, dim + 1, seed + 7); fillWeights(w, other, seed + 3); d = D(x, w); }, true);
+	}
+	if(kind == "sparse-cls-w"){
+		typedef LabeledData<CompressedRealVector, unsigned int> L; typedef WeightedLabeledData<CompressedRealVector, unsigned int> D;
+		D orig(L(sparse, labels), weights);
+		return head + dsHistory(orig, binary, [](D& d){ return show(d.data().inputs()) + " labels " + show(d.data().labels()) + " weights " + show(d.weights()); },
+			[&](D& d){ Data<CompressedRealVector> x; Data<unsigned int> y; Data<double> w; fillSparse(x, other, dim + 1, seed + 7, false); fillLabels(y, other, seed + 3); fillWeights(w, other, seed + 3); d = D(L(x, y), w); }, true);
+	}
 	return "bad-op";
 }
 
-// ------------------------------------------------------------------ models and kernels
-static RealMatrix points(std::size_t n, std::size_t dim, std::size_t seed){
-	RealMatrix x(n, dim);
-	for(std::size_t i = 0; i != n; ++i) for(std::size_t j = 0; j != dim; ++j) x(i,j) = double(cell(seed, i, j));
-	return x;
+// remora::vector written and loaded into a vector that already holds `oldLen` nines
+static std::string runVec(std::vector<std::string> const& t){
+	bool binary = t[1] == "binary";
+	std::size_t oldLen = std::stoull(t[2]);
+	RealVector v(t.size() - 3), used(oldLen, 9.0);
+	for(std::size_t i = 3; i < t.size(); ++i) v(i - 3) = double(std::stol(t[i]));
+	c18::load(c18::bytes(v, binary), used, binary);
+	std::ostringstream os; os << "vec " << used.size() << ":[";
+	for(std::size_t i = 0; i != used.size(); ++i){ if(i) os << " "; os << vh::intval(used(i)); }
+	os << "]" << tokensOf(v);
+	bool same = used.size() == v.size(); for(std::size_t i = 0; same && i != v.size(); ++i) same = used(i) == v(i);
+	return os.str() + (same ? "" : " !oracle stale-vector-not-overwritten");
 }
-static RealVector ramp(std::size_t n, double start, double step){
-	RealVector v(n); for(std::size_t i = 0; i != n; ++i) v(i) = start + step * double(i); return v;
+// standard-library wrappers: vector of pairs with strings, vector of vectors
+static std::string runWrap(std::vector<std::string> const& t){
+	bool binary = t[1] == "binary";
+	std::size_t n = std::stoull(t[2]), seed = std::stoull(t[3]);
+	typedef std::pair<std::vector<std::pair<std::size_t, std::string> >, std::vector<std::vector<double> > > W;
+	W w, used;
+	for(std::size_t i = 0; i != n; ++i){
+		w.first.push_back(std::make_pair((i * 3 + seed) % 7, std::string((i + seed) % 3, 'a')));
+		std::vector<double> r; for(std::size_t j = 0; j != (i + seed) % 3; ++j) r.push_back(double(cell(seed, i, j)));
+		w.second.push_back(r);
+	}
+	used.first.assign(4, std::make_pair(std::size_t(99), std::string("stale"))); used.second.assign(5, std::vector<double>(2, 9.0));
+	c18::load(c18::bytes(w, binary), used, binary);
+	std::ostringstream os; os << "wrap ";
+	for(std::size_t i = 0; i != used.first.size(); ++i){ if(i) os << ","; os << used.first[i].first << ":" << used.first[i].second; }
+	os << " | ";
+	for(std::size_t i = 0; i != used.second.size(); ++i){ if(i) os << ","; os << "["; for(std::size_t j = 0; j != used.second[i].size(); ++j){ if(j) os << " "; os << vh::intval(used.second[i][j]); } os << "]"; }
+	return os.str() + tokensOf(w) + (used == w ? "" : " !oracle stale-container-not-overwritten");
 }
-template<class V> static std::string vecStr(V const& v){
-	std::ostringstream os; os << "(";
-	for(std::size_t i = 0; i != v.size(); ++i){ if(i) os << ","; os << vh::exactDouble(v(i)); }
-	os << ")"; return os.str();
-}
-template<class M> static std::string matStr(M const& m){
-	std::ostringstream os;
-	for(std::size_t i = 0; i != m.size1(); ++i){ os << "["; for(std::size_t j = 0; j != m.size2(); ++j){ if(j) os << ","; os << vh::exactDouble(m(i,j)); } os << "]"; }
-	return os.str();
-}
-template<class Model> static std::string modelBehaviour(Model& m, std::size_t dim){
-	RealMatrix x = points(4, dim, 3), y;
-	m.eval(x, y);
-	return "params=" + vecStr(m.parameterVector()) + " in=" + shapeStr(m.inputShape()) + " out=" + shapeStr(m.outputShape()) + " eval=" + matStr(y);
-}
-template<class K> static std::string kernelBehaviour(K& k, std::size_t dim){
-	RealMatrix x = points(3, dim, 1), y = points(2, dim, 5);
-	RealMatrix g = k(x, y);
-	RealVector a = row(x, 0), b = row(y, 1);
-	return "params=" + vecStr(k.parameterVector()) + " gram=" + matStr(g) + " single=" + vh::exactDouble(k.eval(a, b));
-}
-static std::string verdict(std::string const& label, std::string const& a, std::string const& b){
-	if(a == b) return "obj " + label + " same";
-	return "obj " + label + " differs original{" + a.substr(0, 300) + "} restored{" + b.substr(0, 300) + "} !oracle behaviour-differs";
+
+// ------------------------------------------------------------------ kernels and kernel expansions
+using c18::points; using c18::ramp; using c18::vecStr; using c18::matStr; using c18::kernelBehaviour; using c18::history;
+
+template<class D> static std::string showCopy(D const& d){ D c = d; return show(c); }
+template<class K> static std::string kernelHistory(std::string const& label, K& a, K& a2, K& b, std::size_t dim, bool binary){
+	return history(label, a, a2, b, [dim](K& k){ return kernelBehaviour(k, dim); }, binary);
 }
 
 static std::string runObj(std::string const& label, bool binary){
-	// ---- models
-	if(label == "LinearModel-offset" || label == "LinearModel-nooffset"){
-		bool off = label == "LinearModel-offset";
-		LinearModel<> a(3, 2, off), b(1, 1, !off);
-		a.setParameterVector(ramp(a.numberOfParameters(), -2, 0.5));
-		std::string A = modelBehaviour(a, 3);
-		c18::roundTrip(a, b, binary);
-		return verdict(label, A, modelBehaviour(b, 3));
-	}
-	if(label == "Normalizer"){
-		Normalizer<> a(3, true), b;
-		a.setParameterVector(ramp(a.numberOfParameters(), 1, 0.25));
-		std::string A = modelBehaviour(a, 3);
-		c18::roundTrip(a, b, binary);
-		return verdict(label, A, modelBehaviour(b, 3));
-	}
-	if(label == "ConcatenatedModel" || label == "ConcatenatedModel-frozen-layer"){
-		LinearModel<> a1(3, 2, true), a2(2, 2, false), b1(3, 2, true), b2(2, 2, false);
-		a1.setParameterVector(ramp(a1.numberOfParameters(), -1, 0.5)); a2.setParameterVector(ramp(a2.numberOfParameters(), 2, -0.25));
-		b1.setParameterVector(ramp(b1.numberOfParameters(), 0, 0)); b2.setParameterVector(ramp(b2.numberOfParameters(), 1, 0));
-		ConcatenatedModel<RealVector> a = a1 >> a2, b = b1 >> b2;
-		if(label == "ConcatenatedModel-frozen-layer") a.enableModelOptimization(0, false);
-		std::string A = modelBehaviour(a, 3);
-		c18::roundTrip(a, b, binary);
-		return verdict(label, A, modelBehaviour(b, 3));
-	}
-	if(label == "LinearClassifier"){
-		LinearClassifier<> a(Shape(3), 3, true), b(Shape(2), 2, false);
-		a.setParameterVector(ramp(a.numberOfParameters(), -2, 0.75));
-		RealMatrix x = points(5, 3, 2); UIntVector ya, yb;
-		a.eval(x, ya);
-		std::ostringstream A, B; A << "params=" << vecStr(a.parameterVector()) << " eval=";
-		for(std::size_t i = 0; i != ya.size(); ++i) A << ya(i) << ",";
-		c18::roundTrip(a, b, binary);
-		b.eval(x, yb);
-		B << "params=" << vecStr(b.parameterVector()) << " eval=";
-		for(std::size_t i = 0; i != yb.size(); ++i) B << yb(i) << ",";
-		return verdict(label, A.str(), B.str());
-	}
-	if(label == "LinearModel-float"){
-		LinearModel<FloatVector> a(3, 2, true), b(1, 1, false);
-		FloatVector p(a.numberOfParameters()); for(std::size_t i = 0; i != p.size(); ++i) p(i) = float(i) * 0.5f - 1.0f;
-		a.setParameterVector(p);
-		std::string A = "params=" + vecStr(a.parameterVector()) + " in=" + shapeStr(a.inputShape()) + " out=" + shapeStr(a.outputShape());
-		c18::roundTrip(a, b, binary);
-		return verdict(label, A, "params=" + vecStr(b.parameterVector()) + " in=" + shapeStr(b.inputShape()) + " out=" + shapeStr(b.outputShape()));
-	}
-	if(label == "RBFLayer"){
-		RBFLayer a(2, 3), b(1, 1);
-		a.setParameterVector(ramp(a.numberOfParameters(), -1, 0.25));
-		RealMatrix x = points(4, 2, 3), ya, yb;
-		a.eval(x, ya);
-		std::string A = "params=" + vecStr(a.parameterVector()) + " eval=" + matStr(ya);
-		c18::roundTrip(a, b, binary);
-		b.eval(x, yb);
-		return verdict(label, A, "params=" + vecStr(b.parameterVector()) + " eval=" + matStr(yb));
-	}
-	// ---- kernels
+	typedef AbstractKernelFunction<RealVector> AK;
 	if(label == "GaussianRbfKernel"){
-		GaussianRbfKernel<> a(0.5), b(2.0);
-		std::string A = kernelBehaviour(a, 2); c18::roundTrip(a, b, binary);
-		return verdict(label, A, kernelBehaviour(b, 2));
+		GaussianRbfKernel<> a(0.5), a2(0.125), b(2.0);
+		return kernelHistory(label, a, a2, b, 2, binary);
 	}
 	if(label == "GaussianRbfKernel-unconstrained"){
-		GaussianRbfKernel<> a(0.25, true), b(2.0, false);
-		std::string A = kernelBehaviour(a, 2); c18::roundTrip(a, b, binary);
-		return verdict(label, A, kernelBehaviour(b, 2));
+		GaussianRbfKernel<> a(0.25, true), a2(1.5, true), b(2.0, false);
+		return kernelHistory(label, a, a2, b, 2, binary);
 	}
 	if(label == "LinearKernel"){
-		LinearKernel<> a, b;
-		std::string A = kernelBehaviour(a, 2); c18::roundTrip(a, b, binary);
-		return verdict(label, A, kernelBehaviour(b, 2));
+		LinearKernel<> a, a2, b;
+		return kernelHistory(label, a, a2, b, 2, binary);
 	}
 	if(label == "PolynomialKernel"){
-		PolynomialKernel<> a(3, 1.5, true, false), b(2, 0.0, false, true);
-		std::string A = kernelBehaviour(a, 2); c18::roundTrip(a, b, binary);
-		return verdict(label, A, kernelBehaviour(b, 2));
+		PolynomialKernel<> a(3, 1.5, true, false), a2(2, 0.5, true, true), b(2, 0.0, false, true);
+		return kernelHistory(label, a, a2, b, 2, binary);
 	}
 	if(label == "MonomialKernel"){
-		MonomialKernel<> a(3), b(2);
-		std::string A = kernelBehaviour(a, 2); c18::roundTrip(a, b, binary);
-		return verdict(label, A, kernelBehaviour(b, 2));
+		MonomialKernel<> a(3), a2(4), b(2);
+		return kernelHistory(label, a, a2, b, 2, binary);
 	}
 	if(label == "ARDKernel"){
-		ARDKernelUnconstrained<> a(2, 0.5), b(2, 1.0);
+		ARDKernelUnconstrained<> a(2, 0.5), a2(2, 0.75), b(2, 1.0);
+		a.setParameterVector(ramp(2, 0.25, 0.5)); a2.setParameterVector(ramp(2, 1.0, -0.25));
+		return kernelHistory(label, a, a2, b, 2, binary);
+	}
+	if(label == "ARDKernel-resized"){   // the target has another dimension
+		ARDKernelUnconstrained<> a(2, 0.5), a2(2, 0.75), b(5, 1.0);
 		a.setParameterVector(ramp(2, 0.25, 0.5));
-		std::string A = kernelBehaviour(a, 2); c18::roundTrip(a, b, binary);
-		return verdict(label, A, kernelBehaviour(b, 2));
+		return kernelHistory(label, a, a2, b, 2, binary);
 	}
 	if(label == "ScaledKernel"){
-		GaussianRbfKernel<> ga(0.5), gb(2.0);
-		ScaledKernel<> a(&ga, 3.0), b(&gb, 1.0);
-		std::string A = kernelBehaviour(a, 2); c18::roundTrip(a, b, binary);
-		return verdict(label, A, kernelBehaviour(b, 2));
+		GaussianRbfKernel<> ga(0.5), ga2(0.25), gb(2.0);
+		ScaledKernel<> a(&ga, 3.0), a2(&ga2, 0.5), b(&gb, 1.0);
+		return kernelHistory(label, a, a2, b, 2, binary);
 	}
 	if(label == "NormalizedKernel"){
-		PolynomialKernel<> pa(2, 1.0), pb(2, 3.0);
-		NormalizedKernel<> a(&pa), b(&pb);
-		std::string A = "params=" + vecStr(a.parameterVector()); c18::roundTrip(a, b, binary);
-		return verdict(label, A, "params=" + vecStr(b.parameterVector()));
+		PolynomialKernel<> pa(2, 1.0), pa2(2, 2.0), pb(2, 3.0);
+		NormalizedKernel<> a(&pa), a2(&pa2), b(&pb);
+		return kernelHistory(label, a, a2, b, 2, binary);
 	}
-	if(label == "WeightedSumKernel" || label == "ProductKernel"){
-		GaussianRbfKernel<> ga(0.5), gb(2.0); PolynomialKernel<> pa(2, 1.0), pb(3, 0.5);
-		std::vector<AbstractKernelFunction<RealVector>*> ka{&ga, &pa}, kb{&gb, &pb};
+	if(label == "WeightedSumKernel" || label == "ProductKernel" || label == "WeightedSumKernel-of-composites"){
+		GaussianRbfKernel<> ga(0.5), ga2(0.75), gb(2.0); PolynomialKernel<> pa(2, 1.0), pa2(2, 0.25), pb(3, 0.5);
+		std::vector<AK*> ka{&ga, &pa}, ka2{&ga2, &pa2}, kb{&gb, &pb};
 		if(label == "WeightedSumKernel"){
-			WeightedSumKernel<> a(ka), b(kb);
-			a.setAdaptiveAll(true); b.setAdaptiveAll(true);
+			WeightedSumKernel<> a(ka), a2(ka2), b(kb);
+			a.setAdaptiveAll(true); a2.setAdaptiveAll(true); b.setAdaptiveAll(true);
 			RealVector p = a.parameterVector(); p(0) = 0.75; a.setParameterVector(p);
-			std::string A = kernelBehaviour(a, 2); c18::roundTrip(a, b, binary);
-			return verdict(label, A, kernelBehaviour(b, 2));
+			p = a2.parameterVector(); p(0) = -0.5; a2.setParameterVector(p);
+			return kernelHistory(label, a, a2, b, 2, binary);
 		}
-		ProductKernel<RealVector> a(ka), b(kb);
-		std::string A = kernelBehaviour(a, 2); c18::roundTrip(a, b, binary);
-		return verdict(label, A, kernelBehaviour(b, 2));
+		if(label == "ProductKernel"){
+			ProductKernel<RealVector> a(ka), a2(ka2), b(kb);
+			return kernelHistory(label, a, a2, b, 2, binary);
+		}
+		// nested: weighted sum over (scaled Gaussian, product of (Gaussian, polynomial))
+		ScaledKernel<> sa(&ga, 2.0), sa2(&ga2, 3.0), sb(&gb, 1.0);
+		GaussianRbfKernel<> ha(0.125), ha2(0.375), hb(1.0);
+		std::vector<AK*> qa{&ha, &pa}, qa2{&ha2, &pa2}, qb{&hb, &pb};
+		ProductKernel<RealVector> prA(qa), prA2(qa2), prB(qb);
+		std::vector<AK*> na{&sa, &prA}, na2{&sa2, &prA2}, nb{&sb, &prB};
+		WeightedSumKernel<> a(na), a2(na2), b(nb);
+		a.setAdaptiveAll(true); a2.setAdaptiveAll(true); b.setAdaptiveAll(true);
+		RealVector p = a.parameterVector(); p(0) = 0.5; a.setParameterVector(p);
+		return kernelHistory(label, a, a2, b, 2, binary);
 	}
 	if(label == "ModelKernel"){
-		GaussianRbfKernel<> ga(0.5), gb(2.0);
-		LinearModel<> ma(2, 2, true), mb(2, 2, true);
-		ma.setParameterVector(ramp(ma.numberOfParameters(), -1, 0.5)); mb.setParameterVector(ramp(mb.numberOfParameters(), 1, 0));
-		ModelKernel<RealVector> a(&ga, &ma), b(&gb, &mb);
-		std::string A = kernelBehaviour(a, 2); c18::roundTrip(a, b, binary);
-		return verdict(label, A, kernelBehaviour(b, 2));
+		GaussianRbfKernel<> ga(0.5), ga2(0.25), gb(2.0);
+		LinearModel<> ma(2, 2, true), ma2(2, 2, true), mb(2, 2, true);
+		ma.setParameterVector(ramp(ma.numberOfParameters(), -1, 0.5)); ma2.setParameterVector(ramp(ma2.numberOfParameters(), 2, -0.5)); mb.setParameterVector(ramp(mb.numberOfParameters(), 1, 0));
+		ModelKernel<RealVector> a(&ga, &ma), a2(&ga2, &ma2), b(&gb, &mb);
+		return kernelHistory(label, a, a2, b, 2, binary);
+	}
+	if(label == "DiscreteKernel"){
+		RealMatrix ma(3, 3), ma2(3, 3), mb(2, 2, 1.0);
+		for(std::size_t i = 0; i != 3; ++i) for(std::size_t j = 0; j != 3; ++j){ ma(i,j) = 1.0 + double(std::min(i,j)) * 0.5; ma2(i,j) = i == j ? 2.0 : 0.25; }
+		DiscreteKernel a(ma), a2(ma2), b(mb);
+		auto beh = [](DiscreteKernel& k){
+			std::string s = "params=" + vecStr(k.parameterVector()) + " k=";
+			for(std::size_t i = 0; i != 3; ++i) for(std::size_t j = 0; j != 3; ++j) s += vh::exactDouble(k.eval(i, j)) + ",";
+			return s;
+		};
+		return history(label, a, a2, b, beh, binary);
+	}
+	if(label == "SubrangeKernel"){
+		GaussianRbfKernel<> ga(0.5), ga2(0.75), gb(2.0); PolynomialKernel<> pa(2, 1.0), pa2(2, 0.25), pb(3, 0.5);
+		std::vector<AK*> ka{&ga, &pa}, ka2{&ga2, &pa2}, kb{&gb, &pb};
+		std::vector<std::pair<std::size_t, std::size_t> > ranges{{0, 2}, {1, 3}};
+		SubrangeKernel<RealVector> a(ka, ranges), a2(ka2, ranges), b(kb, ranges);
+		a.setAdaptiveAll(true); a2.setAdaptiveAll(true); b.setAdaptiveAll(true);
+		RealVector p = a.parameterVector(); p(0) = 0.75; a.setParameterVector(p);
+		return kernelHistory(label, a, a2, b, 3, binary);
 	}
 	// ---- kernel expansions with their kernel
-	if(label == "KernelExpansion-offset" || label == "KernelExpansion-nooffset" || label == "KernelExpansion-single-basis"){
+	if(label.compare(0, 15, "KernelExpansion") == 0 || label == "KernelClassifier"){
 		bool off = label != "KernelExpansion-nooffset";
 		std::size_t nb = label == "KernelExpansion-single-basis" ? 1 : 5;
-		GaussianRbfKernel<> ga(0.5), gb(2.0);
-		Data<RealVector> basis;
+		if(label == "KernelExpansion-sparse"){
+			typedef KernelExpansion<CompressedRealVector> KE;
+			LinearKernel<CompressedRealVector> ka, ka2, kb;
+			Data<CompressedRealVector> basis, basis2;
+			fillSparse(basis, {3, 2}, 4, 4, false); fillSparse(basis2, {1, 2}, 4, 9, false);
+			KE a(&ka, basis, true, 2), a2(&ka2, basis2, false, 1), b(&kb);
+			a.setParameterVector(ramp(a.numberOfParameters(), -1, 0.25)); a2.setParameterVector(ramp(a2.numberOfParameters(), 2, -0.5));
+			auto beh = [](KE& k){
+				Data<CompressedRealVector> x; fillSparse(x, {3}, 4, 2, false);
+				RealMatrix y; k.eval(x.batch(0), y);
+				return "params=" + vecStr(k.parameterVector()) + " offset=" + std::string(k.hasOffset() ? "1" : "0") + " basis=" + showCopy(k.basis()) + " eval=" + matStr(y);
+			};
+			return history(label, a, a2, b, beh, binary);
+		}
+		typedef KernelExpansion<RealVector> KE;
+		Data<RealVector> basis, basis2;
 		if(nb == 1) fillDense(basis, {1}, 2, 4); else fillDense(basis, {3, 2}, 2, 4);
-		KernelExpansion<RealVector> a(&ga, basis, off, 2), b(&gb);
-		a.setParameterVector(ramp(a.numberOfParameters(), -1, 0.25));
-		RealMatrix x = points(4, 2, 3), ya, yb;
-		a.eval(x, ya);
-		std::string A = "params=" + vecStr(a.parameterVector()) + " kernel=" + vecStr(ga.parameterVector()) + " eval=" + matStr(ya);
-		c18::roundTrip(a, b, binary);
-		b.eval(x, yb);
-		return verdict(label, A, "params=" + vecStr(b.parameterVector()) + " kernel=" + vecStr(gb.parameterVector()) + " eval=" + matStr(yb));
+		fillDense(basis2, {2, 0, 2}, 2, 8);
+		if(label == "KernelExpansion-composite-kernel"){
+			GaussianRbfKernel<> ga(0.5), ga2(0.75), gb(2.0); PolynomialKernel<> pa(2, 1.0), pa2(2, 0.25), pb(3, 0.5);
+			std::vector<AK*> ka{&ga, &pa}, ka2{&ga2, &pa2}, kb{&gb, &pb};
+			WeightedSumKernel<> wa(ka), wa2(ka2), wb(kb);
+			wa.setAdaptiveAll(true); wa2.setAdaptiveAll(true); wb.setAdaptiveAll(true);
+			RealVector p = wa.parameterVector(); p(0) = 0.75; wa.setParameterVector(p);
+			KE a(&wa, basis, true, 2), a2(&wa2, basis2, false, 1), b(&wb);
+			a.setParameterVector(ramp(a.numberOfParameters(), -1, 0.25)); a2.setParameterVector(ramp(a2.numberOfParameters(), 2, -0.5));
+			auto beh = [](KE& k){
+				RealMatrix x = points(4, 2, 3), y; k.eval(x, y);
+				return "params=" + vecStr(k.parameterVector()) + " kernel=" + vecStr(k.kernel()->parameterVector()) + " basis=" + showCopy(k.basis()) + " eval=" + matStr(y);
+			};
+			return history(label, a, a2, b, beh, binary);
+		}
+		GaussianRbfKernel<> ga(0.5), ga2(0.125), gb(2.0);
+		KE a(&ga, basis, off, 2), a2(&ga2, basis2, !off, 1), b(&gb);
+		a.setParameterVector(ramp(a.numberOfParameters(), -1, 0.25)); a2.setParameterVector(ramp(a2.numberOfParameters(), 2, -0.5));
+		auto beh = [](KE& k){
+			RealMatrix x = points(4, 2, 3), y; k.eval(x, y);
+			return "params=" + vecStr(k.parameterVector()) + " kernel=" + vecStr(k.kernel()->parameterVector()) + " offset=" + std::string(k.hasOffset() ? "1" : "0") + " basis=" + showCopy(k.basis()) + " eval=" + matStr(y);
+		};
+		if(label == "KernelClassifier"){
+			typedef KernelClassifier<RealVector> KC;
+			KC ca(a), ca2(a2), cb(&gb);
+			auto cbeh = [](KC& k){
+				RealMatrix x = points(5, 2, 3); UIntVector y; k.eval(x, y);
+				std::string s = "params=" + vecStr(k.parameterVector()) + " eval=";
+				for(std::size_t i = 0; i != y.size(); ++i) s += std::to_string(y(i)) + ",";
+				return s;
+			};
+			return history(label, ca, ca2, cb, cbeh, binary);
+		}
+		return history(label, a, a2, b, beh, binary);
 	}
+	std::string r = c18::runModel(label, binary);
+	if(r != "bad-op") return r;
+	r = c18::runMoo(label, binary);
+	if(r != "bad-op") return r;
 	return c18::runOptimizer(label, binary);
 }
 
@@ -335,6 +454,8 @@ int main(){
 		try{
 			if(t[0] == "ds" && t.size() >= 5) out = runDs(t);
 			else if(t[0] == "obj" && t.size() == 4) out = runObj(t[1], t[2] == "binary");
+			else if(t[0] == "vec" && t.size() >= 3) out = runVec(t);
+			else if(t[0] == "wrap" && t.size() == 4) out = runWrap(t);
 		}catch(std::exception const& e){
 			std::string what = e.what();
 			for(char& c: what) if(c == '\n') c = ' ';
